@@ -595,6 +595,8 @@ def case_mfr(p):
     out = []
     try:
         ctrl = BleController(CharacteristicCacheMemory())
+        if p.get("pairing"):
+            ctrl.load_pairing("alias", pairing_data(IDS[0], "BLE"))
         dev, adv = ble_adv(IDS[0], data=data)
         try:
             ctrl._device_detected(dev, adv)
@@ -621,7 +623,38 @@ def case_mfr(p):
     return out
 
 
-CASES = {"explore": case_explore, "txt": case_txt, "mfr": case_mfr}
+def case_stream(p):
+    """A steady stream of browser callbacks for one service name (an accessory that keeps re-announcing changed records, period < debounce window)
+    while a caller waits: the record is resolved DEBOUNCE_MAX after the FIRST callback at the latest, however many follow.  p: kind, period, timeout."""
+    from aiohomekit.exceptions import AccessoryNotFoundError
+
+    h = H(dict(kind=p["kind"], pairing=p.get("pairing", "none"), browser=True, waiters=1, ids=1, P=0, seed=p.get("seed", 0)))
+    out = []
+    try:
+        via = p["kind"]
+        t = h.loop.create_task(h.target.async_find(IDS[0], p["timeout"]))
+        h.loop.run_until_idle()
+        t0 = h.loop.time()
+        n = 0
+        while h.loop.time() < t0 + p["timeout"] + 1.0 and not t.done():
+            h._zc("zc-add", IDS[0], via)
+            n += 1
+            h.loop.advance(p["period"])
+        h.loop.advance(1.0)
+        det = {"kind": via, "period": p["period"], "timeout": p["timeout"], "callbacks": n, "finished_at": round(h.loop.time() - t0, 3)}
+        if not t.done():
+            out.append(("stream:waiter-still-pending", det))
+        elif t.cancelled() or t.exception() is not None:
+            if p["timeout"] > DEBOUNCE_MAX + 0.5:
+                out.append(("stream:waiter-not-woken-although-the-record-was-announced-all-along", dict(det, err=repr(t.exception())[:120] if not t.cancelled() else "cancelled")))
+        if IDS[0] not in h.target.discoveries and p["timeout"] > DEBOUNCE_MAX + 0.5:
+            out.append(("stream:announced-device-never-among-discoveries", det))
+    finally:
+        h.close()
+    return out
+
+
+CASES = {"explore": case_explore, "txt": case_txt, "mfr": case_mfr, "stream": case_stream}
 
 
 def _work(item, seed, tier):
@@ -713,7 +746,16 @@ def run(ctx):
             b[pos] = val
             mf.append({"data": bytes(b)})
     mf.append({"data": mfr_data("AA:BB:CC:DD:EE:01".lower(), gsn=65535, cn=255, cat=33, sf=1), "must_accept": True})
+    # every kind byte x every length: the neighbouring parsers (0x11 = encrypted notification) see truncated data too
+    note = bytes([0x11, 0x36]) + bytes.fromhex(IDS[0].replace(":", "")) + bytes(range(16))
+    for first in (0x06, 0x11, 0x00, 0x01, 0x10, 0x12, 0xFF):
+        for src in (m, note):
+            for n in range(1, len(src) + 1):
+                for with_pairing in (False, True):
+                    mf.append({"data": bytes([first]) + src[1:n], "pairing": with_pairing, **({"must_accept": True} if first == 0x06 and src is m and n >= 15 else {})})
     work += [("mfr", mf[i : i + 150]) for i in range(0, len(mf), 150)]
+    streams = [{"kind": k_, "period": per, "timeout": to, "pairing": pm} for k_ in ("ip", "coap") for per in (0.05, 0.1, 0.25, 0.3, 0.45, 0.49, 0.5, 0.6, 1.0) for to in (3.0, 5.0, 10.0) for pm in ("none", "cached")]
+    work += [("stream", streams[i : i + 12]) for i in range(0, len(streams), 12)]
     ctx.pmap(_work, work)
     ctx.exhaustive = not ctx.acc.capped
     for s in ("wait", "adv", "bad", "cancel", "timer", "run1", "txt", "mfr"):
